@@ -2,28 +2,44 @@ import OrbitModel.Proofs.ReplEnq
 /-!
 # Replicator: the safety invariant `Inv`
 
-`InvS` — the structural part (workers ↔ tasks ↔ queue, buffer/pending/log contents);
-`Closure` — no hole is ever forgotten; `Inv` adds the semaphore count and "a non-empty buffer
+`InvS` — the structural part (workers ↔ tasks ↔ queue, buffer/pending/log contents; a worker
+between `processItems` and `processEntryDone` — pc `finishing` — has task `fetching`, holds a slot and
+its log is in the buffer); `Closure` — no hole is ever forgotten; `Inv` adds the semaphore count and "a non-empty buffer
 means the replicator is not idle". This file: definitions, transfer lemmas, list helpers.
 -/
 namespace Orbit.Repl
 
 def isWait (w : Worker) : Bool := w.pc == .waitSlot
-def isFetch (w : Worker) : Bool := w.pc == .fetching
+/-- the worker holds a slot and is counted by `taskInProgress`: inside the fetch, or between
+`processItems` and `processEntryDone` -/
+def isHold (w : Worker) : Bool := w.pc != .waitSlot
+
+@[simp] theorem isHold_wait (c h : Nat) : isHold ⟨c, h, .waitSlot⟩ = false := rfl
+@[simp] theorem isHold_fetching (c h : Nat) : isHold ⟨c, h, .fetching⟩ = true := rfl
+@[simp] theorem isHold_finishing (c h : Nat) : isHold ⟨c, h, .finishing⟩ = true := rfl
+@[simp] theorem isWait_wait (c h : Nat) : isWait ⟨c, h, .waitSlot⟩ = true := rfl
+@[simp] theorem isWait_fetching (c h : Nat) : isWait ⟨c, h, .fetching⟩ = false := rfl
+@[simp] theorem isWait_finishing (c h : Nat) : isWait ⟨c, h, .finishing⟩ = false := rfl
 
 structure InvS (net : Nat → Info) (s : St) : Prop where
-  /-- `inProgress` counts the workers inside a fetch -/
-  inprog_eq : s.inProgress = s.workers.countP isFetch
+  /-- `inProgress` counts the workers that hold a slot (fetching or finishing) -/
+  inprog_eq : s.inProgress = s.workers.countP isHold
   keys_nodup : (s.tasks.map (·.1)).Nodup
   /-- at most one worker per hash -/
   w_nodup : (s.workers.map (·.item)).Nodup
-  /-- a waiting worker's item has task `added`, a fetching worker's item has task `fetching` -/
+  /-- a waiting worker's item has task `added`, a fetching or finishing worker's item has task
+  `fetching` -/
   w_task : ∀ w ∈ s.workers, task s w.item = some (tsOf w.pc)
   /-- every unfinished task has its worker (nothing is ever orphaned) -/
   task_w : ∀ h t, task s h = some t → t ≠ .fetched → ∃ w ∈ s.workers, w.item = h ∧ tsOf w.pc = t
   /-- the queue is exactly the items of the waiting workers, in spawn order -/
   queue_eq : s.queue = (s.workers.filter isWait).map (·.item)
-  bp_fetched : ∀ h, inBP s h → task s h = some .fetched ∧ (net h).foreign = false
+  /-- a flushed batch holds finished tasks only -/
+  pend_fetched : ∀ b ∈ s.pending, ∀ h ∈ b, task s h = some .fetched ∧ (net h).foreign = false
+  /-- a buffered log belongs to a finished task, or to a worker that is about to finish -/
+  buf_got : ∀ h ∈ s.buffer, got s h ∧ (net h).foreign = false
+  /-- a finishing worker's log is in the buffer, unless it was written for another log -/
+  fin_buf : ∀ w ∈ s.workers, w.pc = .finishing → (net w.item).foreign = false → w.item ∈ s.buffer
   buf_nodup : s.buffer.Nodup
   log_nodup : s.log.Nodup
   log_ok : ∀ h ∈ s.log, task s h = some .fetched ∧ (net h).valid = true ∧ (net h).foreign = false
@@ -31,10 +47,11 @@ structure InvS (net : Nat → Info) (s : St) : Prop where
   fetched_in : ∀ h, task s h = some .fetched → (net h).valid = true → (net h).foreign = false →
     h ∈ s.log ∨ inBP s h
 
-/-- **no hole is ever forgotten**: every link of a fetched entry of this log is in the oplog, has a
-task, or is remembered for retry -/
+/-- **no hole is ever forgotten**: every link of a fetched entry of this log (its task is `fetched`,
+or its worker has queued its parents and is about to mark it `fetched`) is in the oplog, has a task,
+or is remembered for retry -/
 def Closure (net : Nat → Info) (s : St) : Prop :=
-  ∀ h, task s h = some .fetched → (net h).foreign = false → ∀ l ∈ (net h).links, tracked s l
+  ∀ h, got s h → (net h).foreign = false → ∀ l ∈ (net h).links, tracked s l
 
 structure Inv (net : Nat → Info) (c : Nat) (s : St) : Prop extends InvS net s where
   closure : Closure net s
@@ -44,42 +61,105 @@ structure Inv (net : Nat → Info) (c : Nat) (s : St) : Prop extends InvS net s 
 theorem task_congr {s s' : St} (h : s'.tasks = s.tasks) (k : Nat) : task s' k = task s k := by
   simp only [task_def, h]
 
+theorem finAt_congr {s s' : St} (h : s'.workers = s.workers) (k : Nat) : finAt s' k ↔ finAt s k := by
+  simp only [finAt, h]
+
+theorem got_congr {s s' : St} (h2 : s'.workers = s.workers) (h3 : s'.tasks = s.tasks) (k : Nat) :
+    got s' k ↔ got s k := by
+  simp only [got, task_congr h3, finAt_congr h2]
+
+/-- a finishing worker's task is `fetching` -/
+theorem InvS.finAt_task {net : Nat → Info} {s : St} (h : InvS net s) {k : Nat} (hk : finAt s k) :
+    task s k = some .fetching := by
+  obtain ⟨w, hw, rfl, hp⟩ := hk
+  have := h.w_task w hw
+  rw [hp] at this; exact this
+
+/-- what sits in the buffer or in a pending batch has been fetched and belongs to this log -/
+theorem InvS.bp_got {net : Nat → Info} {s : St} (h : InvS net s) (k : Nat) (hk : inBP s k) :
+    got s k ∧ (net k).foreign = false := by
+  rcases hk with hk | ⟨b, hb, hk⟩
+  · exact h.buf_got k hk
+  · exact ⟨Or.inl (h.pend_fetched b hb k hk).1, (h.pend_fetched b hb k hk).2⟩
+
 theorem InvS.congr {net : Nat → Info} {s s' : St} (h : InvS net s)
     (h1 : s'.inProgress = s.inProgress) (h2 : s'.workers = s.workers) (h3 : s'.tasks = s.tasks)
-    (h4 : s'.queue = s.queue) (h5 : s'.log = s.log) (h6 : ∀ k, inBP s' k ↔ inBP s k)
-    (h7 : s.buffer.Nodup → s'.buffer.Nodup) : InvS net s' where
+    (h4 : s'.queue = s.queue) (h5 : s'.log = s.log) (h6 : s'.buffer = s.buffer)
+    (h7 : s'.pending = s.pending) : InvS net s' where
   inprog_eq := by rw [h1, h2]; exact h.inprog_eq
   keys_nodup := by rw [h3]; exact h.keys_nodup
   w_nodup := by rw [h2]; exact h.w_nodup
   w_task := by intro w hw; rw [task_congr h3]; exact h.w_task w (h2 ▸ hw)
   task_w := by intro k t; rw [task_congr h3, h2]; exact h.task_w k t
   queue_eq := by rw [h4, h2]; exact h.queue_eq
-  bp_fetched := by intro k hk; rw [task_congr h3]; exact h.bp_fetched k ((h6 k).1 hk)
-  buf_nodup := h7 h.buf_nodup
+  pend_fetched := by intro b hb k hk; rw [task_congr h3]; exact h.pend_fetched b (h7 ▸ hb) k hk
+  buf_got := by intro k hk; rw [got_congr h2 h3]; exact h.buf_got k (h6 ▸ hk)
+  fin_buf := by intro w hw; rw [h6]; exact h.fin_buf w (h2 ▸ hw)
+  buf_nodup := by rw [h6]; exact h.buf_nodup
   log_nodup := by rw [h5]; exact h.log_nodup
   log_ok := by intro k hk; rw [task_congr h3]; exact h.log_ok k (h5 ▸ hk)
   fetched_in := by
-    intro k; rw [task_congr h3, h5, h6]; exact h.fetched_in k
+    intro k; rw [task_congr h3, h5, inBP_congr h6 h7]; exact h.fetched_in k
+
+/-- `idle()` keeps the structural invariant: it only fires when every task is `fetched`, so no worker
+is left and everything in the buffer belongs to a finished task -/
+theorem InvS.flush {net : Nat → Info} {s : St} (h : InvS net s) : InvS net (flush s) := by
+  rcases flush_cases s with e | ⟨hidle, _, e⟩
+  · rw [e]; exact h
+  · have hnf : ∀ k, ¬ finAt s k := fun k hk => by
+      have := isIdle_false_of_task (h.finAt_task hk) (by simp)
+      rw [hidle] at this; cases this
+    rw [e]
+    refine ⟨h.inprog_eq, h.keys_nodup, h.w_nodup, h.w_task, h.task_w, h.queue_eq, ?_, ?_, ?_,
+      List.nodup_nil, h.log_nodup, h.log_ok, ?_⟩
+    · intro b hb k hk
+      rcases List.mem_append.1 hb with hb | hb
+      · exact h.pend_fetched b hb k hk
+      · rw [List.mem_singleton.1 hb] at hk
+        rcases h.buf_got k hk with ⟨hg | hg, hf⟩
+        · exact ⟨hg, hf⟩
+        · exact absurd hg (hnf k)
+    · intro k hk; cases hk
+    · intro w hw hp _
+      exact absurd ⟨w, hw, rfl, hp⟩ (hnf w.item)
+    · intro k hk hv hf
+      rcases h.fetched_in k hk hv hf with h' | h'
+      · exact Or.inl h'
+      · exact Or.inr (e ▸ (inBP_flush s k).2 h')
 
 theorem tracked_congr {s s' : St} (h1 : s'.log = s.log) (h2 : s'.tasks = s.tasks)
     (h3 : s'.failed = s.failed) (k : Nat) : tracked s' k ↔ tracked s k := by
   simp only [tracked, h1, task_congr h2, h3]
 
-theorem Closure.congr {net : Nat → Info} {s s' : St} (h : Closure net s) (h1 : s'.log = s.log)
-    (h2 : s'.tasks = s.tasks) (h3 : s'.failed = s.failed) : Closure net s' := by
-  intro k hk hf l hl
-  rw [tracked_congr h1 h2 h3]
-  rw [task_congr h2] at hk
-  exact h k hk hf l hl
+/-- a hash stays tracked when the oplog and the task table only grow and a forgotten task is
+remembered in `failed` -/
+theorem tracked_of {s s' : St} (hl : ∀ k ∈ s.log, k ∈ s'.log)
+    (ht : ∀ k, task s k ≠ none → task s' k ≠ none ∨ k ∈ s'.failed)
+    (hf : ∀ k ∈ s.failed, k ∈ s'.failed) (h : Nat) : tracked s h → tracked s' h := by
+  rintro (h' | h' | h')
+  · exact Or.inl (hl h h')
+  · rcases ht h h' with h'' | h''
+    · exact Or.inr (Or.inl h'')
+    · exact Or.inr (Or.inr h'')
+  · exact Or.inr (Or.inr (hf h h'))
 
-/-- finishing a step: flush, then give `d` slots back -/
-theorem Inv.finish {net : Nat → Info} {c : Nat} {s : St} (d : Nat) (h : InvS net s)
+/-- `Closure` moves along a step that fetches nothing of this log and forgets no hash -/
+theorem Closure.transfer {net : Nat → Info} {s s' : St} (h : Closure net s)
+    (hg : ∀ k, (net k).foreign = false → got s' k → got s k)
+    (ht : ∀ l, tracked s l → tracked s' l) : Closure net s' :=
+  fun k hk hf l hl => ht l (h k (hg k hf hk) hf l hl)
+
+theorem Closure.congr {net : Nat → Info} {s s' : St} (h : Closure net s) (h1 : s'.log = s.log)
+    (h2 : s'.tasks = s.tasks) (h3 : s'.failed = s.failed) (h4 : s'.workers = s.workers) :
+    Closure net s' :=
+  h.transfer (fun k _ hk => (got_congr h4 h2 k).1 hk) (fun l hl => (tracked_congr h1 h2 h3 l).2 hl)
+
+/-- closing a step: flush, then give `d` slots back -/
+theorem Inv.flushed {net : Nat → Info} {c : Nat} {s : St} (d : Nat) (h : InvS net s)
     (hc : Closure net s) (hs : s.sem + d + s.inProgress = c) :
     Inv net c { flush s with sem := (flush s).sem + d } where
-  toInvS := h.congr (flush_inProgress s) (flush_workers s) (flush_tasks s) (flush_queue s)
-    (flush_log s) (fun k => (inBP_congr (s' := { flush s with sem := (flush s).sem + d })
-      (s := flush s) rfl rfl k).trans (inBP_flush s k)) flush_buffer_nodup
-  closure := hc.congr (flush_log s) (flush_tasks s) (flush_failed s)
+  toInvS := h.flush.congr rfl rfl rfl rfl rfl rfl rfl
+  closure := hc.congr (flush_log s) (flush_tasks s) (flush_failed s) (flush_workers s)
   sem_eq := by show (flush s).sem + d + (flush s).inProgress = c; simpa using hs
   buf_idle := by
     intro hb
@@ -88,11 +168,11 @@ theorem Inv.finish {net : Nat → Info} {c : Nat} {s : St} (d : Nat) (h : InvS n
 
 /-! ### list helpers -/
 
-theorem countP_spawn (ctx : Nat) (nw : List Nat) : (spawn ctx nw).countP isFetch = 0 := by
+theorem countP_spawn (ctx : Nat) (nw : List Nat) : (spawn ctx nw).countP isHold = 0 := by
   rw [List.countP_eq_zero]
   intro w hw
   obtain ⟨h, _, rfl⟩ := mem_spawn.1 hw
-  simp [isFetch]
+  simp
 
 theorem filter_spawn (ctx : Nat) (nw : List Nat) : (spawn ctx nw).filter isWait = spawn ctx nw := by
   rw [List.filter_eq_self]
